@@ -47,6 +47,11 @@ impl<'i> ExecutableInstruction<'i> for FoldStreamMap<'i> {
                     .get_mut_stream_ref()
             };
 
+        #[cfg(aquavm_verif)]
+        crate::verif_hooks::emit(crate::verif_hooks::Event::StreamUse {
+            name: iterable.name.to_string(),
+            air_pos: iterable.position.into(),
+        });
         execute_with_stream(
             exec_ctx,
             trace_ctx,
